@@ -232,7 +232,7 @@ def r4(ctx):
     if sp and const_value(op_const(sp[0][1]["args"][1]) or {}) != ord("/"):
         yield VIOL("C03-R4", "get_signing_key/separator", "access key split on a separator other than '/'", where=b.span_of_block(sp[0][0]))
     # the request handed to the provider is that built request
-    prov = one(b.calls(r"tower::ServiceExt::oneshot$|tower_service::Service::call$"), "provider invocation in get_signing_key")
+    prov = one(b.calls(r"tower::ServiceExt::oneshot$|tower(_service)?::Service::call$"), "provider invocation in get_signing_key")
     rs = b.slice_op(prov[1]["args"][1])
     if not rs.has_call(r"GetSigningKeyRequestBuilder::build$"):
         yield VIOL("C03-R4", "get_signing_key/request-source", "the request given to the provider is not the built GetSigningKeyRequest", where=b.span_of_block(prov[0]))
